@@ -497,6 +497,9 @@ func depText(n *big.Int) string {
 	if n.Sign() <= 0 {
 		return "-"
 	}
+	if n.BitLen() > 255 { // an sdk.Int cannot carry more (the message could not be built)
+		n = new(big.Int).Sub(new(big.Int).Lsh(big.NewInt(1), 255), big.NewInt(1))
+	}
 	return n.String()
 }
 
@@ -831,7 +834,7 @@ func (g *gen) opEnable(adv bool) (*draft, bool) {
 	need := new(big.Int).Sub(g.bindingMinDeposit(b), b.Deposit.AmountOf(stakeDenom).BigInt())
 	dep := "-"
 	if need.Sign() > 0 {
-		dep = new(big.Int).Add(need, big.NewInt([]int64{0, 0, 1, 100}[g.r.Intn(4)])).String()
+		dep = depText(new(big.Int).Add(need, big.NewInt([]int64{0, 0, 1, 100}[g.r.Intn(4)])))
 	} else if g.pct(25) {
 		dep = itoa([]int64{1, 5, 1000}[g.r.Intn(3)])
 	}
@@ -1522,6 +1525,17 @@ func generateHistory(seed int64, index int, prof *profile, nOps int, path string
 	for _, o := range ownerAddrs {
 		if err := step(fmt.Sprintf("fund acct=%s amt=%d", hx(o), ownerFunds)); err != nil {
 			return nil, err
+		}
+	}
+	// in about a third of the histories the 20-byte provider accounts hold funds too, so that a
+	// provider (or a stranger) acting as a signer is not stopped merely by an empty account
+	if g.pct(35) {
+		for _, p := range append([][]byte{strangerAddr}, providerAddrs...) {
+			if len(p) == 20 {
+				if err := step(fmt.Sprintf("fund acct=%s amt=%d", hx(p), ownerFunds)); err != nil {
+					return nil, err
+				}
+			}
 		}
 	}
 	balances := consumerBalancesNormal
